@@ -218,12 +218,13 @@ impl<'de> serde::de::Visitor<'de> for CfgFileVisitor {
 
         let extensions = extensions.unwrap_or_default();
 
+        // the default locale is a known locale even when it is not listed in `locales`.
         for (k, v) in &extensions {
-            if !locales.contains(k) {
+            if !locales.contains(k) && k != &default {
                 return Err(serde::de::Error::custom(format!("unknown locale {:?}", k)));
             }
 
-            if !locales.contains(v) {
+            if !locales.contains(v) && v != &default {
                 return Err(serde::de::Error::custom(format!("unknown locale {:?}", v)));
             }
         }
